@@ -385,10 +385,23 @@ def gen_kernels():
     return p.stdout.decode()
 
 
+def gen_kernels_sgp4():
+    """T-C for the SGP4 core: trace OrbitElements / _SGDP4Base / _SGDP4.propagate / _Keplerians / get_position of the
+    current source with cut points (harness/symtrace_sgp4.py), in a child interpreter like gen_kernels."""
+    import subprocess
+    env = dict(os.environ, PV_REPO=REPO, PYTHONDONTWRITEBYTECODE="1")
+    p = subprocess.run([sys.executable, os.path.join(HERE, "symtrace_sgp4.py")], stdout=subprocess.PIPE,
+                       stderr=subprocess.PIPE, env=env, timeout=600)
+    if p.returncode != 0 or not p.stdout.startswith(b"/- GENERATED"):
+        raise ExtractError("symbolic tracing of the SGP4 core failed: " + p.stderr.decode(errors="replace")[-1200:])
+    return p.stdout.decode()
+
+
 def regenerate():
     changed = []
     errors = []
-    for name, fn in (("Consts.lean", gen_consts), ("TleColumns.lean", gen_tle_columns), ("Kernels.lean", gen_kernels)):
+    for name, fn in (("Consts.lean", gen_consts), ("TleColumns.lean", gen_tle_columns), ("Kernels.lean", gen_kernels),
+                     ("KernelsSgp4.lean", gen_kernels_sgp4)):
         try:
             text = fn()
         except Exception as e:  # noqa  keep going: the other generated files must still be current
